@@ -370,12 +370,23 @@ func (s *Serializer) loadInterfaceOpts(x interface{}, opts LoadOpts) *lisp.LVal 
 			return lisp.Errorf("allocation size %d exceeds maximum (%d)", len(x), maxAlloc)
 		}
 		m := SortedMap(x)
+		// Go map iteration order is random, so returning the first error met
+		// would make the reported error depend on the run.  Report the error
+		// of the smallest failing key instead; the success path is unchanged.
+		var firstErr *lisp.LVal
+		var firstKey string
 		for k, v := range m {
 			lval := s.loadInterfaceOpts(v, opts)
 			if lval.Type == lisp.LError {
-				return lval
+				if firstErr == nil || k < firstKey {
+					firstErr, firstKey = lval, k
+				}
+				continue
 			}
 			m[k] = lval
+		}
+		if firstErr != nil {
+			return firstErr
 		}
 		return lisp.SortedMapFromData(lisp.NewMapData(m))
 	case []interface{}:
